@@ -38,6 +38,7 @@ from .values import (
     CallbackVal,
     DObj,
     ElemRef,
+    ExtObj,
     Frame,
     Func,
     LObj,
@@ -110,6 +111,10 @@ class LoopSpec:
         self.dec = top.decreases.get(key)
         self.locals_t = top.loop_locals.get(key, {})
         self.key = key
+        # optional per-loop frame: `loop_modifies={ordinal: [...]}` (a subset of `modifies`) is what this
+        # loop may change; only that is havocked at the loop head, and the rest of the heap is checked
+        # unchanged over one iteration (obligations `loop-frame`)
+        self.mods = ((getattr(top, 'extra', None) or {}).get('loop_modifies') or {}).get(key)
 
     def name(self, kind):
         return self.cfg.obl_name(None, kind, f'loop{self.label}' if not isinstance(self.key, tuple) else f'{self.key[0]}.loop{self.label}')
@@ -159,7 +164,7 @@ class LoopSpec:
                 recv = x.target
             if isinstance(recv, ast.Name) and recv.id in vars and recv.id not in names:
                 v = vars[recv.id]
-                if isinstance(v, Ref) and v.oid not in old_heap and isinstance(path.obj(v), (LObj, DObj, BAObj)):
+                if isinstance(v, Ref) and v.oid not in old_heap and isinstance(path.obj(v), (LObj, DObj, BAObj, ExtObj)):
                     if recv.id not in self.locals_t:
                         raise Unsupported(f'loop mutates the local container {recv.id!r} in place: declare its type in loop_locals')
                     names.add(recv.id)
@@ -169,9 +174,34 @@ class LoopSpec:
             elif n in vars:
                 vars[n] = self.cfg.havoc_like(path, vars[n], n)
             # names not yet bound stay unbound (first assignment happens in the body)
-        self.cfg.havoc_modifies(path, self.top, path.entry_env, 'loop')
+        if self.mods is not None:
+            self.cfg.havoc_modifies(path, _ModSet(self.mods), path.entry_env, 'loop')
+            path.snapshot(self.snap_name())
+        else:
+            self.cfg.havoc_modifies(path, self.top, path.entry_env, 'loop')
         henv = {k: v for k, v in self.env(path).items() if k != 'old'}
         path.headstate = {'env': henv, 'ghost': path.ghost, 'heap': {oid: o.clone() for oid, o in path.heap.items()}, 'lazy': path.lazy, 'loop': self.label}
+
+
+class _ModSet:
+    def __init__(self, modifies):
+        self.modifies = list(modifies)
+
+
+def _loop_snap_name(self):
+    return f'loophead#{self.key}'
+
+
+def _loop_check_frame(self, path):
+    """end of one iteration of a loop with a declared per-loop frame: everything outside
+    loop_modifies has the value it had at the loop head"""
+    if self.mods is None:
+        return
+    self.cfg.check_frame(path, 'loop', snap=self.snap_name(), modifies=self.mods, label=f'loop{self.label}')
+
+
+LoopSpec.snap_name = _loop_snap_name
+LoopSpec.check_loop_frame = _loop_check_frame
 
 
 class Config:
@@ -292,6 +322,7 @@ class Config:
         if isinstance(t, C.IntRange):
             s = path.fresh_sym('int', hint)
             path.add_def(z3.And(s.t >= t.lo, s.t <= t.hi))
+            M.mark_range(path, s.t, t.lo, t.hi)
             return s
         if t is C.Bool:
             return path.fresh_sym('bool', hint)
@@ -347,11 +378,14 @@ class Config:
             eff = self.spec_func(t.effect) if t.effect is not None else None
             return CallbackVal(t.name, eff, t.returns, t.raises)
         if isinstance(t, C.ListOf):
-            return path.alloc(LObj(None, path.fresh_sym(('seq', kind_of_T(t.t)), hint), t.flavor))
+            sq = path.fresh_sym(('seq', kind_of_T(t.t)), hint)
+            if t.maxlen is not None:
+                path.add_def(z3.Length(sq.t) <= t.maxlen)  # type invariant of a bounded deque
+            return path.alloc(LObj(None, sq, t.flavor, t.maxlen))
         if isinstance(t, C.TupleOf):
             return tuple(self.fresh(path, x, f'{hint}.{i}') for i, x in enumerate(t.ts))
         if isinstance(t, C.ConcList):
-            return path.alloc(LObj([self.fresh(path, t.t, f'{hint}[{i}]') for i in range(t.n)], flavor=t.flavor))
+            return path.alloc(LObj([self.fresh(path, t.t, f'{hint}[{i}]') for i in range(t.n)], flavor=t.flavor, maxlen=t.maxlen))
         if isinstance(t, C.EmptyDict):
             return path.alloc(DObj({}, path.import_native(t.default_factory) if t.default_factory else None))
         if isinstance(t, C.MapOf):
@@ -374,6 +408,10 @@ class Config:
             return path.alloc(MObj(dom, cols, cls, mdl, t.default_factory, evcols))
         if isinstance(t, C.Event):
             return path.alloc(Obj(asyncio.Event, {'_flag': path.fresh_sym('bool', hint + '._flag')}))
+        if isinstance(t, C.ExtT):
+            return t.fresh(self, path, hint)
+        if hasattr(t, 'fresh'):
+            return t.fresh(self, path, hint)  # extension point: type descriptors defined outside the core (pyvc/ext_*.py)
         raise Unsupported(f'fresh value of type {t!r}')
 
     def havoc_like(self, path, v, hint):
@@ -398,6 +436,9 @@ class Config:
                 return v
             if isinstance(o, LObj) and o.items is not None and not o.items:
                 raise Unsupported(f'loop local {hint}: list needs a declared type (loop_locals)')
+            if isinstance(o, ExtObj):
+                path.wobj(v).ext_havoc(path, v, hint)
+                return v
             return v  # objects keep identity; their fields are governed by modifies
         if v is None or isinstance(v, (str, OpaqueStr, Unknown)):
             return v
@@ -484,6 +525,8 @@ class Config:
                     elif isinstance(ft, C.ListOf) and isinstance(tgt, LObj):
                         tgt.sym = path.fresh_sym(('seq', kind_of_T(ft.t)), n)
                         tgt.items = None
+                        if tgt.maxlen is not None:
+                            path.add_def(z3.Length(tgt.sym.t) <= tgt.maxlen)
                     elif isinstance(ft, C.MapOf) and isinstance(tgt, MObj):
                         self.havoc_map(path, cur, n)
                     elif isinstance(ft, C.Event) and isinstance(tgt, Obj):
@@ -499,10 +542,14 @@ class Config:
             elif isinstance(ho, LObj):
                 if ho.sym is not None:
                     ho.sym = path.fresh_sym(ho.sym.k, 'lst')
+                    if ho.maxlen is not None:
+                        path.add_def(z3.Length(ho.sym.t) <= ho.maxlen)
                 else:
                     raise Unsupported('havoc of a concrete-spine list (declare ListOf in the class model)')
             elif isinstance(ho, MObj):
                 self.havoc_map(path, Ref(oid), 'map')
+            elif isinstance(ho, ExtObj):
+                ho.ext_havoc(path, Ref(oid), 'ext')
             elif isinstance(ho, DObj):
                 raise Unsupported('havoc of a concrete-spine dict')
 
@@ -573,8 +620,15 @@ class Config:
             path.prog_temps = saved
             path.prog_vals = saved_vals
             if temps:
-                ids = {id(t) for t in temps}
-                path.pc = [p for p in path.pc if id(p) not in ids]
+                # remove exactly the entries that were appended (one occurrence per temp, from the end): a
+                # clause may evaluate to the very term object a branch condition already put on the pc
+                pc = list(path.pc)
+                for t in reversed(temps):
+                    for idx in range(len(pc) - 1, -1, -1):
+                        if pc[idx] is t:
+                            del pc[idx]
+                            break
+                path.pc = pc
         if dead:
             path.die_after = len(out)
         return out
@@ -612,6 +666,16 @@ class Config:
         c2 = self.contract_for(path, key, f)
         if c2 is not None:
             return self.apply_contract(path, c2, f, args, kwargs)
+        # contract kwarg `stubs={callable: Callback}` also replaces a repo function outside the kernel
+        # (e.g. the crypto toolbox) by a recorded callback, like it does for library functions
+        stubs = getattr(self.top, 'extra', {}).get('stubs')
+        if stubs and f.native is not None and f.closure is None:
+            try:
+                cb = stubs.get(f.native)
+            except TypeError:
+                cb = None
+            if cb is not None:
+                return path.call(self.fresh(path, cb, cb.name), args, kwargs, node)
         if self.may_inline(key, f):
             path.inlined.add(key)
             return path.run_func(f, args, kwargs)
@@ -697,6 +761,10 @@ class Config:
             return res
         exc_cls = outcomes[k]
         exc = path.new_exception(exc_cls)
+        # contract kwarg `exc_fields={ExcClass: {name: T}}`: attributes of the raised exception that the
+        # `raises` clause talks about (fresh values of the declared types, constrained by the clause)
+        for fname, ft in ((c2.extra.get('exc_fields') or {}).get(exc_cls) or {}).items():
+            path.wobj(exc).fields[fname] = self.fresh(path, ft, f'exc.{fname}')
         env2['exc'] = exc
         post = c2.raises[exc_cls]
         if post is not None:
@@ -718,19 +786,21 @@ class Config:
         return ls
 
     # -- frame ------------------------------------------------------------------------
-    def check_frame(self, path, tag):
-        top = self.top
+    def check_frame(self, path, tag, snap='old', modifies=None, label=None):
+        top = self.top if modifies is None else _ModSet(modifies)
         if ('*' in getattr(top, 'modifies', ['*'])) or self.skeleton:
             return
+        if label is not None:
+            self = _FrameNamer(self, label)
         saved_heap = path.heap
         targets = None
         # resolve modifies in the pre-state
-        path.heap = path.snapshots['old']
+        path.heap = path.snapshots[snap]
         try:
             targets = self.loc_targets(path, top, path.entry_env)
         finally:
             path.heap = saved_heap
-        old = path.snapshots['old']
+        old = path.snapshots[snap]
         for oid, o0 in old.items():
             o1 = path.heap.get(oid)
             if isinstance(o0, Frame):
@@ -750,7 +820,7 @@ class Config:
                     self.frame_obl(path, tag, f'bytearray#{oid}', o0.val, o1.val)
             elif isinstance(o0, LObj):
                 if o0.sym is not o1.sym or o0.items != o1.items:
-                    v0 = M.list_as_sym(path, Ref(oid, 'old'))
+                    v0 = M.list_as_sym(path, Ref(oid, snap))
                     v1 = M.list_as_sym(path, Ref(oid), v0.k[1] if v0 is not None else None) if v0 is not None else None
                     if v0 is None or v1 is None:
                         if (o0.items or []) != (o1.items or []):
@@ -760,6 +830,10 @@ class Config:
             elif isinstance(o0, DObj):
                 if o0.items.keys() != o1.items.keys() or any(o0.items[k] is not o1.items[k] for k in o0.items):
                     path.oblige(self.obl_name(path, 'frame', f'dict'), 'frame', False)
+            elif isinstance(o0, ExtObj):
+                same = o0.ext_unchanged(path, o1)
+                if same is not True:
+                    path.oblige(self.obl_name(path, 'frame', type(o0).__name__), 'frame', same)
             elif isinstance(o0, MObj):
                 if not o0.dom.eq(o1.dom):
                     path.oblige(self.obl_name(path, 'frame', 'map.dom'), 'frame', mk_bool(o0.dom == o1.dom))
@@ -781,6 +855,23 @@ class Config:
 
 
 _GONE = object()
+
+
+class _FrameNamer:
+    """view of a Config whose frame obligations are named after a loop (per-loop frames)"""
+
+    def __init__(self, cfg, label):
+        self._cfg = cfg
+        self._label = label
+
+    def __getattr__(self, n):
+        return getattr(self._cfg, n)
+
+    def obl_name(self, path, kind, label=''):
+        return self._cfg.obl_name(path, f'{self._label}-{kind}' if kind == 'frame' else kind, label)
+
+    def frame_obl(self, path, tag, label, v0, v1):
+        return Config.frame_obl(self, path, tag, label, v0, v1)
 
 
 # ---------------------------------------------------------------------------
@@ -875,7 +966,11 @@ def verify(registry, top, tier='quick', max_paths=4000, collect_pre=True):
             outcome = 'unsupported'
         except PyExc as e:
             # exception escaping from clause evaluation / pre-state construction
-            res.undecided.append(f'{path.cur_loc}: python exception {e.value!r} outside the function under contract')
+            try:
+                _desc = f'{path.exc_class_of(e.value).__name__}{getattr(path.obj(e.value), "fields", {}).get("args", "")!r}'
+            except Exception:
+                _desc = repr(e.value)
+            res.undecided.append(f'{path.cur_loc}: python exception {_desc} outside the function under contract')
             outcome = 'unsupported'
         except RecursionError:
             res.undecided.append('python recursion limit in the engine')
@@ -899,6 +994,10 @@ def verify(registry, top, tier='quick', max_paths=4000, collect_pre=True):
                 ob.info['headstate'] = getattr(path, 'headstate', None)
             ob.info['decisions'] = tuple(path.decisions)
             res.obligations.append(ob)
+    if res.paths == 0 and not res.undecided:
+        # every path died as infeasible: `requires` is unsatisfiable or an applied callee contract has an unsatisfiable
+        # postcondition -- nothing was verified, which must never read as a pass
+        res.undecided.append('no feasible path (vacuous): requires, or the postcondition of an applied callee contract, is unsatisfiable')
     res.feas_checks = explorer.feas_checks
     return res
 
@@ -931,6 +1030,8 @@ def run_path(cfg, path, top, func, is_lemma):
     pnames = [p.arg for p in a.posonlyargs + a.args] + [p.arg for p in a.kwonlyargs]
     missing = [p for p in pnames if p not in env]
     kwargs = {p: env[p] for p in pnames if p in env}
+    if is_lemma and 'ghost' in pnames and 'ghost' not in env:
+        kwargs['ghost'] = path.ghost  # a ghost driver may read (and write) the ghost state, as it can natively
     try:
         result = path.run_func(func, [], kwargs)
     except PyExc as e:
